@@ -31,7 +31,8 @@ ASSUMPTIONS = [
 ]
 
 
-PAYLOAD_FORMS = ("data", "None if data is None else bytearray(data)", "bytearray(data)", "bytes(data)", "None if data is None else bytes(data)")
+PAYLOAD_FORMS = ("data", "None if data is None else bytearray(data)", "bytearray(data)", "bytes(data)", "None if data is None else bytes(data)",
+                 "bytearray() if data is None else bytearray(data)", "b'' if data is None else bytes(data)")   # can.Message takes None as "no data"
 
 
 def run(chk):
